@@ -140,6 +140,26 @@ Range(f)  == {f[a] : a \in DOMAIN f}
 CfgOK == cc \in {"mock", "simulated"} \/ cc = tab.xid
 
 (***************************************************************************)
+(* Well-formed input (what Init, scenario generation and the harness may   *)
+(* choose).                                                                *)
+(***************************************************************************)
+ElemOK(e) == /\ e.k \in {"bal", "ord", "trade"} /\ e.xok \in BOOLEAN /\ e.early \in BOOLEAN
+             /\ e.d \in Nat /\ (e.early => e.d = 0) /\ e.v \in Nat
+OutcomeOK(o) == /\ o.r \in {"sfail", "nfail", "nbad", "ok"}
+                /\ o.ls \in Nat /\ o.ln \in Nat /\ o.ed \in Nat
+                /\ \A i \in 1..Len(o.body) : ElemOK(o.body[i])
+                /\ \A i \in 1..(Len(o.body) - 1) : o.body[i + 1].early => o.body[i].early     \* a prefix
+                /\ o.r = "sfail" => o.body = <<>>
+                /\ o.r \in {"nfail", "nbad"} => \A i \in 1..Len(o.body) : o.body[i].early
+InputOK == /\ Len(script) >= 1
+           /\ \A j \in 1..Len(script) : OutcomeOK(script[j])
+           /\ \A j, h \in 1..Len(script) : \A i \in 1..Len(script[j].body), g \in 1..Len(script[h].body) :
+                  script[j].body[i].v = script[h].body[g].v => j = h /\ i = g
+           /\ \A i \in 1..Len(reqs) : reqs[i].at \in Nat /\ (reqs[i].d = -1 \/ reqs[i].d \in 0..(T - 1))
+           /\ policy.b0 <= policy.max /\ policy.mult >= 1 /\ policy.b0 \in Nat
+           /\ rin \in DOMAIN tab.insts
+
+(***************************************************************************)
 (* The current attempt / connection.                                       *)
 (***************************************************************************)
 Outcome == script[pos]
